@@ -47,10 +47,11 @@ type target struct {
 	Content map[string][]byte // model-built plain tries: key -> value (nil for prod worlds)
 	NAcct   int
 
-	closure map[common.Hash]bool // every blob a complete destination must hold for this root
-	order   []common.Hash        // closure in deterministic order
-	nShared int                  // closure members referenced from >= 2 different parents
-	nRaw    int
+	closure                               map[common.Hash]bool // every blob a complete destination must hold for this root
+	order                                 []common.Hash        // closure in deterministic order
+	nShared                               int                  // closure members referenced from >= 2 different parents
+	nRaw                                  int
+	nEmbedded, nSharedRaw, nSharedStorage int // embedded nodes; code/delegation blobs and storage roots used by >= 2 account leaves
 }
 
 type world struct {
@@ -105,6 +106,8 @@ func (w *world) walk(t *target) error {
 	expanded := map[common.Hash]bool{}
 	parents := map[common.Hash]map[common.Hash]bool{}
 	rawSeen := map[common.Hash]bool{}
+	storageRoots := map[common.Hash]bool{}
+	t.nEmbedded = 0
 	addParent := func(ch, p common.Hash) {
 		if parents[ch] == nil {
 			parents[ch] = map[common.Hash]bool{}
@@ -129,6 +132,7 @@ func (w *world) walk(t *target) error {
 		if err != nil {
 			return fmt.Errorf("node %x: %v", h[:6], err)
 		}
+		t.nEmbedded += model.MPTEmbeddedCount(blob)
 		var ks []common.Hash
 		for _, ch := range hashes {
 			x := common.BytesToHash(ch)
@@ -147,6 +151,7 @@ func (w *world) walk(t *target) error {
 				if sr := common.BytesToHash(n.Kids[2].Str); sr != emptyRoot {
 					ks = append(ks, sr)
 					addParent(sr, h)
+					storageRoots[sr] = true
 					if err := visit(sr, false, 0); err != nil {
 						return err
 					}
@@ -180,10 +185,16 @@ func (w *world) walk(t *target) error {
 			return err
 		}
 	}
-	t.nShared, t.nRaw = 0, len(rawSeen)
-	for _, ps := range parents {
+	t.nShared, t.nRaw, t.nSharedRaw, t.nSharedStorage = 0, len(rawSeen), 0, 0
+	for ch, ps := range parents {
 		if len(ps) >= 2 {
 			t.nShared++
+			if rawSeen[ch] {
+				t.nSharedRaw++
+			}
+			if storageRoots[ch] {
+				t.nSharedStorage++
+			}
 		}
 	}
 	return nil
@@ -352,15 +363,33 @@ func neighbourContent(r *rand.Rand, m map[string][]byte, fresh func() ([]byte, [
 	return o
 }
 
-func genTrieWorld(r *rand.Rand) (*world, error) {
+// genTrieWorld: big = a trie of 150-350 KB, so that the production sync crosses its 100 KB
+// periodic-commit threshold several times.
+func genTrieWorld(r *rand.Rand, big bool) (*world, error) {
 	style := trieStyles[r.Intn(len(trieStyles))]
+	if big {
+		style = "big"
+	}
 	w := &world{Kind: "trie", Style: style, Uni: blobs{}, Feat: map[string]bool{}}
 	c0 := genTrieContent(r, style)
-	if r.Intn(40) == 0 {
+	if big {
+		c0 = map[string][]byte{}
+		for i := 300 + r.Intn(300); i > 0; i-- {
+			k := make([]byte, 32)
+			r.Read(k)
+			v := make([]byte, 400+r.Intn(200))
+			r.Read(v)
+			c0[string(k)] = v
+		}
+	}
+	if !big && r.Intn(40) == 0 {
 		c0 = map[string][]byte{string([]byte{0x12, 0x34}): bigVal(r)} // single-leaf trie
 	}
 	c1 := neighbourContent(r, c0, func() ([]byte, []byte) {
 		ks := sortedKeys(c0)
+		if len(ks) == 0 {
+			return []byte{byte(r.Intn(256)), byte(r.Intn(256))}, genVal(r)
+		}
 		k := []byte(ks[r.Intn(len(ks))])
 		k = append([]byte{}, k...)
 		k[len(k)-1] ^= byte(1 + r.Intn(255))
